@@ -19,7 +19,7 @@ RULE = ("values: boundary-biased (address, prefix) pairs (0, max, all-ones octet
         "copy construction); the integers the object reports (address, network, prefix length, netmask, hostmask, last, numhosts) are compared with the "
         "reference model by vm_compute, and in the same run with ipaddress (three-way) together with the string renderings. "
         "aux: near-valid text = every string at one edit (delete/insert/substitute/duplicate-group) from valid spellings: accept/reject and value must match ipaddress. "
-        "non-trivial (values) = host bits non-zero or prefix in {0,W-1,W}; distinct by (family, form, prefix, address class). stream render4: for every prefix length and boundary/random addresses the strings str(ip), as_cidr_addr, as_cidr_net, str(netmask), str(hostmask), str(broadcast) of the IPv4 object are compared inside Coq with the renderer of Model/IPText.v (the one v4_parse_render is about).")
+        "non-trivial (values) = host bits non-zero or prefix in {0,W-1,W}; distinct by (family, form, prefix, address class). stream render4: for every prefix length and boundary/random addresses the strings str(ip), as_cidr_addr, as_cidr_net, str(netmask), str(hostmask), str(broadcast) of the IPv4 object are compared inside Coq with the renderer of Model/IPText.v (the one v4_parse_render is about). stream render6: the same for IPv6 (str(ip), as_cidr_addr, as_cidr_net, netmask, hostmask) on all 256 zero/non-zero group patterns, the boundary pool, IPv4-mapped and random values, against Model/IPRender6.v.")
 EXHAUSTIVE = {"quick": False, "thorough": False}
 TRUSTED = [
     "Coq 8.16.1 kernel incl. vm_compute (no native_compute)",
@@ -36,8 +36,8 @@ LEVEL_TEXT = ("Numeric layer proved for all (address, prefix) pairs of both fami
               "IPv6 text: v6_parse (coq/Model/IPText6.v, a transcription of ipaddress's IPv6 parser and IPv6Obj's input handling, tied by the v6text stream) only accepts in-range values (v6_parse_sound), and every spelling "
               "ipaddress accepts denotes the expected value, for every group value, every hextet spelling (minimal lower/upper case, zero padded -- spellings, an exhaustive kernel computation over all 65536 groups), "
               "with or without /len and surrounding blanks: eight groups (v6_parse_full), hi::lo with either side possibly empty (v6_parse_compressed), six groups + dotted quad (v6_parse_embedded_full), "
-              "hi::lo:d.d.d.d (v6_parse_embedded_compressed; value_of_embedded: the quad is the low 32 bits); the blank-separated form addr<blanks>len reads exactly as addr/len (v6_parse_blank_form); an accepted address text consists of hexadecimal digits, ':' and '.' only (v6_addr_alphabet: one foreign character anywhere and the address is rejected). Never truncated: whatever v4_parse / v6_parse accept decomposes completely into an address text accepted as a whole followed by nothing, or by a separator and a whole mask / length (v4_parse_shape, dotted_whole, v6_parse_shape).")
-LEVEL_NOTE = ("PARTIAL: rejection of malformed IPv6 text (beyond 'accepted => in range and over the address alphabet'), and all string renderings are decided by correspondence (v6text stream) and differential testing against ipaddress, not by a theorem; "
+              "hi::lo:d.d.d.d (v6_parse_embedded_compressed; value_of_embedded: the quad is the low 32 bits); the blank-separated form addr<blanks>len reads exactly as addr/len (v6_parse_blank_form); an accepted address text consists of hexadecimal digits, ':' and '.' only (v6_addr_alphabet: one foreign character anywhere and the address is rejected). Never truncated: whatever v4_parse / v6_parse accept decomposes completely into an address text accepted as a whole followed by nothing, or by a separator and a whole mask / length (v4_parse_shape, dotted_whole, v6_parse_shape). IPv6 renderings: the renderer coq/Model/IPRender6.v (tied to str(ip), as_cidr_addr, as_cidr_net, netmask, hostmask by the render6 stream, all 256 zero-group patterns) re-parses to the same value for every 128-bit value (render6_parses, render6_cidr_parses).")
+LEVEL_NOTE = ("PARTIAL: rejection of malformed IPv6 text (beyond 'accepted => in range and over the address alphabet') is decided by correspondence (v6text stream) and differential testing against ipaddress, not by a theorem; that the renderers of the model equal the strings the objects print is tied by the render4/render6 streams (and compared with ipaddress), not proved; "
               "the numeric theorems, the IPv4 textual theorems (v4_parse_render, v4_parse_sound about the hand model coq/Model/IPText.v, tied by the v4text stream) and the IPv6 textual theorems "
               "(v6_parse_sound, v6_parse_full, v6_parse_compressed, v6_parse_embedded_* about coq/Model/IPText6.v, tied by the v6text stream) are unbounded. Trusted: Coq kernel + vm_compute, translator, driver, ipaddress as reference.")
 
@@ -292,6 +292,29 @@ def lit_render4(c, o):
     return "(%s, %d, %s)" % (common.zlit(c["a"]), c["p"], common.listlit([common.strlit(x) for x in o]))
 
 
+def gen_render6(rng, tier, escalate):
+    big = tier == "thorough" or escalate
+    cases = []
+    pool = sorted(_addr_pool(128, rng))
+    # zero runs of every position and length (the "::" placement), ties between equally long runs, single zero groups
+    shapes = []
+    for mask in range(256):
+        shapes.append(sum((rng.choice([1, 0xffff, 0x1234, 0xa]) if mask >> (7 - i) & 1 else 0) << (16 * (7 - i)) for i in range(8)))
+    for a in shapes + pool + [rng.getrandbits(128) for _ in range(400 if big else 100)] + [0xFFFF00000000 | rng.getrandbits(32) for _ in range(20)]:
+        cases.append({"a": a, "p": rng.choice([0, 1, 64, 127, 128, rng.randint(0, 128)])})
+    return cases
+
+
+def run_render6(c):
+    from ciscoconfparse2.ccp_util import IPv6Obj
+    try:
+        o = IPv6Obj(c["a"])
+        o.prefixlen = c["p"]
+        return [str(o.ip), str(o.as_cidr_addr), str(o.as_cidr_net), str(o.netmask), str(o.hostmask)]
+    except BaseException as e:
+        return ["raised " + type(e).__name__]
+
+
 STREAMS = [Stream("v4text", gen_v4text, run_v4text, lit_v4text, PRE, "list N * option (Z * Z)", "agree11t", show="model11t", nontrivial=nt_v4text,
                   describe=lambda c, o: {"text": c["s"], "impl (addr, plen)": o}),
            Stream("v6text", gen_v6text, run_v6text, lit_v4text, PRE, "list N * option (Z * Z)", "agree11t6", show="model11t6",
@@ -304,7 +327,12 @@ STREAMS = [Stream("v4text", gen_v4text, run_v4text, lit_v4text, PRE, "list N * o
                   "From Coq Require Import ZArith List NArith. Import ListNotations. Require Import CCP.Corr.C11. Open Scope Z_scope.",
                   "Z * Z * list (list N)", "agree11r", show="model11r",
                   nontrivial=lambda c, o: (c["p"], c["a"] >> 24 in (0, 255), c["a"] & 255 in (0, 255)) if c["p"] in (0, 1, 8, 24, 30, 31, 32) or (c["a"] & 255) in (0, 255) else None,
-                  describe=lambda c, o: {"address": c["a"], "prefixlen": c["p"], "impl [ip, as_cidr_addr, as_cidr_net, netmask, hostmask, broadcast]": o})]
+                  describe=lambda c, o: {"address": c["a"], "prefixlen": c["p"], "impl [ip, as_cidr_addr, as_cidr_net, netmask, hostmask, broadcast]": o}),
+           Stream("render6", gen_render6, run_render6, lit_render4,
+                  "From Coq Require Import ZArith List NArith. Import ListNotations. Require Import CCP.Corr.C11. Open Scope Z_scope.",
+                  "Z * Z * list (list N)", "agree11r6", show="model11r6",
+                  nontrivial=lambda c, o: ("::" in o[0], o[0].startswith("::"), o[0].endswith("::"), o[0].count(":")) if len(o) == 5 else None,
+                  describe=lambda c, o: {"address": c["a"], "prefixlen": c["p"], "impl [ip, as_cidr_addr, as_cidr_net, netmask, hostmask]": o})]
 
 
 # ------------------------------------------------------------------ textual layer: three-way differential test
